@@ -646,10 +646,18 @@ def _rerun(c, prev, role):
     verifflow_mod.OBSERVER = tr.flow_event
     orng_stub.CREATED.clear()
     urng = LoggingRNG(np.random.default_rng(c["seed"]), tr)
-    if hasattr(sampler, "rng") and c["rng_route"] != "sample":
-        sampler.rng = urng
+    import inspect
+    attr_only = "rng" not in inspect.signature(type(sampler).__init__).parameters
+    if hasattr(sampler, "rng") and (attr_only or c["rng_route"] != "sample"):
+        sampler.rng = urng      # (for a class without constructor / call parameter the attribute is the only way in)
     sample_kw = _sample_kwargs(c, sampler, urng)
     prob, flow = prev["prob"], prev["flow"]
+    if c.get("reseed_all"):
+        # every explicit random source is put back to its seed: the proposal's own generator and
+        # numpy's global state (the emcee stand-in copies it), as for a run on a fresh object
+        np.random.seed((c["kseed"] if c["kseed"] is not None else c["seed"]) % (2**31))
+        if hasattr(flow, "_rng") and hasattr(flow, "seed"):
+            flow._rng = np.random.default_rng(flow.seed)
 
     def cb(state):
         blob = sampler.serialize_checkpoint(state)
